@@ -18,6 +18,8 @@ ORIGIN = {
        "off-by-one slip and a condition slip)",
     7: "fresh sub-agent given only the property text and a scratch worktree (round 7: a library/idiom migration with subtly "
        "different semantics and a change of when or how often something is evaluated)",
+    8: "fresh sub-agent given only the property text and a scratch worktree (round 8: a large refactoring commit with one hidden "
+       "slip and a change confined to shared definitions)",
 }
 
 
